@@ -129,10 +129,24 @@ class DBOSIdleReleaseExternalRunAdapter(BaseExternalRunAdapterDecorator):
                 self.run_id, crash_timeout_seconds=CRASH_TIMEOUT_SECONDS
             )
             if result is None:
+                # 'active' is set as soon as a resumer claims the run, before
+                # the run is actually rebuilt: wait for a resume in progress in
+                # this process, or the tick goes to the run that is being purged.
+                resuming = self._runtime._resumes_in_progress.get(self.run_id)
+                if resuming is not None:
+                    await asyncio.shield(resuming)
                 await self._decorated.send_event(tick)
                 return
             if result == RunLifecycleState.released:
-                await self._runtime._do_resume(self.run_id, pending_tick=tick)
+                done: asyncio.Future[None] = (
+                    asyncio.get_running_loop().create_future()
+                )
+                self._runtime._resumes_in_progress[self.run_id] = done
+                try:
+                    await self._runtime._do_resume(self.run_id, pending_tick=tick)
+                finally:
+                    self._runtime._resumes_in_progress.pop(self.run_id, None)
+                    done.set_result(None)
                 return
             # releasing — poll until it completes or times out
             await asyncio.sleep(0.5)
@@ -171,6 +185,8 @@ class DBOSIdleReleaseDecorator(BaseRuntimeDecorator):
             raise ValueError("lifecycle_lock is required")
         self._lifecycle_lock_factory = lifecycle_lock
         self._lifecycle_lock_instance: RunLifecycleLock | None = None
+        # run_id -> future resolved when the resume claimed in this process is done
+        self._resumes_in_progress: dict[str, asyncio.Future[None]] = {}
         # run_id -> task writing the run's initial 'active' lifecycle row
         self._lifecycle_registrations: dict[str, asyncio.Task[None]] = {}
 
